@@ -61,6 +61,13 @@ func VxC20DeltaUpdateKeepsOldViews() {
 		Receipts:              []*starknet.TransactionReceipt{{TransactionHash: &h}},
 		TransactionStateDiffs: []*starknet.StateDiff{{}},
 	}
+	// the appended transaction may emit an event (the tip's header carries the bloom filter of its events)
+	emits := vx.Choice("delta-emits-an-event", 2) == 1
+	if emits {
+		from := felt.FromUint64[felt.Felt](0xe1)
+		delta.Receipts[0].Events = []*starknet.Event{{From: &from, Keys: []felt.Felt{felt.FromUint64[felt.Felt](0x77)}}}
+		vx.Cover("delta-emits-an-event")
+	}
 	// the appended transaction may write the same contract: the same slot, another slot, its nonce
 	newVal := felt.FromUint64[felt.Felt](1000 + uint64(vx.U8("delta.value")))
 	deltaSlot := felt.FromUint64[felt.Felt](uint64(1 + vx.Choice("delta.slot", 2)))
@@ -87,6 +94,14 @@ func VxC20DeltaUpdateKeepsOldViews() {
 	vx.Assert(view.Head() == tipEntry && view.Length() == n, "old-view-still-points-at-old-entry")
 	vx.Assert(len(tipEntry.Block.Transactions) == 0, "old-view-transactions-unchanged")
 	vx.Assert(len(tipEntry.NewClasses) == had, "old-view-declared-classes-unchanged")
+	// ... its header still describes the events of ITS transactions (none): the bloom filter object must not be
+	// shared with the new tip, whose filter now covers the appended transaction's event
+	vx.Assert(tipEntry.Block.Header.EventsBloom != nil && tipEntry.Block.Header.EventsBloom.BitSet().Count() == 0, "old-view-events-bloom-unchanged")
+	vx.Assert(tipEntry.Block.Header.EventCount == 0, "old-view-event-count-unchanged")
+	if emits {
+		vx.Assert(affected.Block.Header.EventCount == 1 && affected.Block.Header.EventsBloom != nil &&
+			affected.Block.Header.EventsBloom.BitSet().Count() > 0, "new-tip-bloom-covers-the-appended-event")
+	}
 	// ... and the old view's state diff is the one it had: the slot and nonce the earlier transaction wrote
 	oldSD := tipEntry.StateUpdate.StateDiff
 	if tipWrote {
